@@ -163,7 +163,8 @@ class TrackWorld(World):
                 "with_features": r.random() < (0.3 if focus == "C04" else 0.6),
                 "fork_rate": r.choice([0, 0.02, 0.08]), "names": list(NAMES[: r.choice([2, 3, 4, 4])]),
                 "sorted_tracks": 0.9 if focus == "C17" else r.choice([0.2, 0.6, 0.9]),
-                "renew": r.choice([0.01, 0.05, 0.15]), "callable_faults": r.choice([0, 0, 0.15, 0.4])}
+                "renew": r.choice([0.01, 0.05, 0.15]), "callable_faults": r.choice([0, 0, 0.15, 0.4]),
+                "np_time": r.random() < 0.08}
 
     @classmethod
     def deepen(cls, cfg, r):
@@ -558,7 +559,7 @@ class TrackWorld(World):
     def _g_via(self, r, m):
         self.rtagc = getattr(self, "rtagc", 0) + 300
         return {"kind": r.choice(["resample_t", "resample_s", "mul2", "pow", "make_odd", "make_even", "loop_add",
-                                  "increment_time", "set_order"]),
+                                  "increment_time", "set_order", "loop", "loop"]),
                 "delta": r.choice([1, 2, 0.5, 7]), "n": r.choice([2, 3, 5, 9]), "to": r.randrange(self.cfg["sessions"]),
                 "tag0": self.rtagc - 300}
 
@@ -628,6 +629,10 @@ class TrackWorld(World):
     # ------------------------------------------------------------ real objects
     def _mk_obs(self, o):
         from tracklib.core import Obs, ENUCoords, ObsTime
+        if self.cfg.get("np_time"):
+            # timestamps built from the columns of a numpy array: the fields are numpy integers
+            import numpy
+            return Obs(ENUCoords(o[0], o[1], o[2]), ObsTime(*[numpy.int64(v) for v in o[3]]))
         return Obs(ENUCoords(o[0], o[1], o[2]), ObsTime(*o[3]))
 
     def _sess(self, st):
@@ -814,7 +819,14 @@ class TrackWorld(World):
     def op_fork(self, st):
         t, m = self._sess(st)
         to = st["to"]
-        cp, exc = self.call(t.copy)
+        if (st.get("s", 0) + to + self.step_index) % 3 == 0:
+            # the copy is taken through a collection: TrackCollection([t]).copy() copies its tracks
+            from tracklib.core import TrackCollection
+            coll, exc = self.call(lambda: TrackCollection([t]).copy())
+            cp = coll.getTrack(0) if exc is None else None
+            self.probe("copy_through_a_collection")
+        else:
+            cp, exc = self.call(t.copy)
         if exc is not None:
             return self._unexpected("C01", exc, "copy")
         self.real[to], self.model[to] = cp, copy.deepcopy(m)
@@ -2100,6 +2112,20 @@ class TrackWorld(World):
                 m["obs"].pop()
                 m["geo"] += 1
             self._check_all("C04", "%s (the last observation goes when the size has the other parity)" % k)
+            return
+        if k == "loop":
+            # loop(): the first fix is moved onto the last one (values; the two stay two objects)
+            if n < 2:
+                raise Skip()
+            _, exc = self.call(t.loop)
+            if exc is not None:
+                return self._unexpected("C04", exc, "loop")
+            m["obs"][0]["x"], m["obs"][0]["y"] = m["obs"][-1]["x"], m["obs"][-1]["y"]
+            m["obs"][0]["z"] = m["obs"][-1]["z"]
+            m["geo"] += 1
+            self._retag(t, m, st.get("tag0", 10 ** 6))
+            self.probe("track_closed_by_loop")
+            self._check_all("C04", "loop (first fix moved onto the last)")
             return
         if k == "set_order":
             if n == 0:
